@@ -510,8 +510,12 @@ def masterDhcp : Nat → NetM Unit
       let msg ← liftPy (Mesh.packHNat newAddr)
       modNode fun n => { n with frameBuf := { n.frameBuf with message := msg } }
       if fromNode ≠ NETWORK_DEFAULT_ADDR then
-        if !(← nodeWrite f (← getNode).frameBuf.header.toNode TX_NORMAL) then
-          let _ ← nodeWrite f (← getNode).frameBuf.header.toNode TX_NORMAL
+        let toNode := (← getNode).frameBuf.header.toNode
+        let response ← liftPy (← getNode).frameBuf.pack
+        if !(← nodeWrite f toNode TX_NORMAL) then
+          -- waiting for the NETWORK_ACK may have replaced frame_buf: restore the response
+          modNode fun n => { n with frameBuf := (n.frameBuf.unpack response).1 }
+          let _ ← nodeWrite f toNode TX_NORMAL
       else
         let _ ← nodeWrite f (← getNode).frameBuf.header.toNode TX_PHYSICAL
 
